@@ -308,8 +308,33 @@ def o94(ctx):
         ctx.finding(q, subs[0].node if subs else fn, "the particles of tomogram t must be selected for mask t", subs[0].node if subs else fn, m)
 
 
+def o96(ctx):
+    """ioutils.tlt_load: 'If it is a numpy array, it will be returned as is' -- the id list paired with the masks keeps the caller's order"""
+    q = "ioutils.tlt_load"
+    m, fn = ctx.prog.func(q)
+    ctx.touched(q)
+    for kind, test in (("ndarray", "isinstance(input_tlt, np.ndarray)"), ("list", "isinstance(input_tlt, list)")):
+        for srt in (True, False):
+            S = Space(f"the caller's {kind}", how="root")
+            src = Val(sym("ids"), space=S)
+            amap = {"isinstance(input_tlt, np.ndarray)": kind == "ndarray", "isinstance(input_tlt, list)": kind == "list",
+                    "isinstance(input_tlt, str)": False, "input_tlt.size == 0": False, "len(input_tlt) == 0": False, "sort_angles": srt}
+            it = Interp(ctx.prog, assume=assume_map(amap))
+            r = it.run(q, [src], {"sort_angles": K(srt)})
+            got = r.ret
+            what = f"tlt_load({kind}, sort_angles={srt}) returns the values as given"
+            if got is None or not isinstance(got, (Val, Unk, Arr)):
+                raise Unsupported(f"{what}: result not recognised", fn)
+            same_rows_same_order(ctx, q, got, src, what, fn, m)
+            ctx.count(1)
+            t = to_term(got)
+            if not tm.contains(t, lambda n: n == sym("ids")) or tm.contains(t, lambda n: n.op == "call" and str(n.args[0]) in ("numpy.sort", "numpy.unique", "sorted")):
+                ctx.finding(q, what, f"{what}: got {tm.show(t)[:80]}", fn, m)
+
+
 def _obligations():
     return [
+        Obligation("O9.6", "tlt_load returns list / array input as given: tomogram i stays paired with mask i", o96, floor=8),
         Obligation("O9.1", "out-of-bounds removal: both sides, per axis, against the particle's own tomogram", o91, floor=30),
         Obligation("O9.2", "trimming: x' = x - (start-1), kept iff 1 <= x' <= extent on every axis (ties)", o92, floor=70),
         Obligation("O9.3", "point cleaner: group subsets on both tables, complete positions, caller's radius, positional drop, unconditional concat", o93, floor=7),
